@@ -25,10 +25,21 @@ def check(run, cases=None):
     run.rule = ('lattice pairs (a, b) and a point per case, 12 methods x 4 pose kinds; TLC differentiates the named operation along every '
                 'tangent direction of the named operand by dual numbers; the code Jacobian chained with the exact boxplus Jacobian must equal it; '
                 'non-trivial = distinct (case, method) whose exact derivative is not a 0/+-1 pattern')
+    live = {}
     for c, obs in pairs:
         k = c['k']
         S = PC.scale_of(c)
         a, b = B.pose(k, c['ta'], c['ra']), B.pose(k, c['tb'], c['rb'])
+        # History dimension: every other case re-uses the pose OBJECTS of the previous case of the same kind, overwritten in place
+        # (ndarray assignment) after their Jacobians were already requested once: results must depend on the current values only.
+        if k in live and run.replayed % 2 == 1:
+            oa, ob = live[k]
+            oa.jacobian_boxplus(); ob.jacobian_boxplus(); oa.inverse; oa.jacobian_inverse()      # noqa
+            oa[:] = a
+            ob[:] = b
+            a, b = oa, ob
+            run.notes['in_place_reuse_cases'] = run.notes.get('in_place_reuse_cases', 0) + 1
+        live[k] = (a, b)
         pt = np.array([float(x) for x in c['pt']])
         f, cd, dm = B.FDIM[k], B.CDIM[k], B.DIM[k]
         D = obs['D']
